@@ -119,6 +119,9 @@ func contains(xs []string, s string) bool {
 	return false
 }
 
+// classes on which piecewise and whole must agree. The classes of the findings repaired in round 3
+// (var-names-earlier-chunk-var F11-1, method-redefinition F11-7, main-declared F11-8) no longer
+// exist: their inputs are in-domain / history inputs and a residual divergence is a VIOLATION.
 var agreeClasses = map[string]bool{"in-domain": true, "history": true, "history-plain": true, "forward-reference-within-chunk": true, "mixed-text": true}
 
 func features(c caseT) []string {
@@ -180,7 +183,7 @@ func main() {
 		return
 	}
 	run := common.NewRun("C11")
-	run.Res.Rule = "cases = (a) generated sequential programs as item lists (package-level variables whose initialisers call logging functions, function literals over globals, functions incl. recursion, named types with methods, init functions, statements of main: prints, assignments, calls, x := e; a final dump of every variable) × seeded cut lists (1..all item boundaries) — a quarter perturbed out of the domain (forward reference, initialiser after a statement, declaration naming a variable of main, redeclaration, use before define); (b) histories = a session followed by rounds of redefinitions (function, variable by var, variable by :=, function literal, method, main) each followed by uses of every function; every case is run through 3 session entry points and (programs) 5 whole-program entry points; one evaluation = one (case, entry point); non-trivial = at least two texts and at least one call; distinct = distinct protocol line + entry point"
+	run.Res.Rule = "cases = (a) generated sequential programs as item lists (package-level variables whose initialisers call logging functions, function literals over globals, functions incl. recursion, named types with methods, init functions, statements of main: prints, assignments, calls, x := e; a final dump of every variable) × seeded cut lists (1..all item boundaries) — half of them with initialisers and function literals that name package-level variables directly (cut anywhere: the shape of F11-1); a quarter perturbed out of the domain (forward reference, initialiser after a statement, declaration naming a variable of main, redeclaration — also `var x = x + k` —, use before define, a variable that depends on itself directly / in its literal / through a function); (b) histories = a session followed by rounds of redefinitions (function, variable by var with a constant / an expression over the session / itself, variable by :=, function literal, method declared again — the shape of F11-7 —, main declared alone or among variables and init functions, again and followed by more texts — the shape of F11-8) each followed by uses of every function; a history with an initialization cycle must stop there with a variable definition loop; every case is run through 3 session entry points and (programs) 5 whole-program entry points; one evaluation = one (case, entry point); non-trivial = at least two texts and at least one call; distinct = distinct protocol line + entry point"
 	defer run.Finish()
 	drv, err := common.StartDriver("C11")
 	if err != nil {
@@ -273,8 +276,8 @@ func main() {
 		var s string
 		if c.Kind == "prog" {
 			s = wholeSrc(c.Items)
-		} else if m := mixedAt(c.Texts); m >= 0 {
-			s = histSrc(c.Texts[:m]) // the session stops there with a syntax error
+		} else if m, _ := stopAt(c.Texts); m >= 0 {
+			s = histSrc(c.Texts[:m]) // the session stops there with a syntax error / an initialization cycle
 		} else {
 			s = histSrc(c.Texts)
 		}
@@ -341,6 +344,7 @@ func main() {
 		}
 	}
 
+	nDomDiff := 0
 	var first, later []common.Disagreement
 	defer func() {
 		for _, d := range append(first, later...) {
@@ -421,8 +425,8 @@ func main() {
 		for _, ev := range evals {
 			modelOK := unmodelled || sameAsModel(ev.o, ev.m, ev.names)
 			same := sameAsRef(ev.o, rf)
-			if m := mixedAt(c.Texts); c.Kind == "hist" && m >= 0 {
-				same = rf.Reject == "" && rf.Died == "" && ev.o.Halt == "parse" && ev.o.At == m && ev.o.Out == rf.Out
+			if m, how := stopAt(c.Texts); c.Kind == "hist" && m >= 0 {
+				same = rf.Reject == "" && rf.Died == "" && ev.o.Halt == how && ev.o.At == m && ev.o.Out == rf.Out
 			}
 			if !known {
 				run.Count(ev.name+" "+lines[i], len(texts) >= 2 && hasCall(c))
@@ -467,7 +471,9 @@ func main() {
 		}
 		if known {
 			f := knownFs[i]
-			if cl := listedClasses(f.ID); len(cl) > 0 && !contains(cl, class) {
+			// a repaired finding keeps its replay (it must pass now) and the class it had; the input is
+			// labelled by what else it is
+			if cl := listedClasses(f.ID); f.Status == "finding" && len(cl) > 0 && !contains(cl, class) {
 				run.Errorf("finding %s: its replay input has class %q, the entry lists %v", f.ID, class, cl)
 			}
 			run.Res.Known = append(run.Res.Known, common.KnownReplay{ID: f.ID, Status: f.Status, What: f.What, StillFails: stillFails,
@@ -476,6 +482,9 @@ func main() {
 		}
 		run.Hit("class:" + class)
 		run.Hit("kind:" + c.Kind)
+		if ans["crossdep"] == "1" {
+			run.Hit("shape:initialiser-names-a-variable-of-an-earlier-text (F11-1, repaired)")
+		}
 		if c.Note != "" {
 			run.Hit("perturbation:" + c.Note)
 		}
@@ -488,7 +497,10 @@ func main() {
 		}
 		if c.Kind == "prog" && ans["dom"] != "0" && (ans["p"] != ans["w"] || ans["pat"] != "-") {
 			// redundant with the theorem: a cheap check that the theorem says what the driver runs
-			run.Errorf("inside the proved domain the model's session and whole program differ: %s", answers[i])
+			// (under a mutated source the regenerated facts are not `Good` and this fires: reported thrice)
+			if nDomDiff++; nDomDiff <= 3 {
+				run.Errorf("inside the proved domain the model's session and whole program differ: %s", answers[i])
+			}
 		}
 		for _, k := range features(c) {
 			run.Hit("feature:" + k)
